@@ -473,6 +473,7 @@ package value
 //@ axiom enum_present: forall m MapStorage, i int :: 0 <= i && i < mcard(m) ==> mhas(m, mkeyAt(m, i))
 //@ ghost func mindex(m MapStorage, k string) int
 //@ axiom enum_complete: forall m MapStorage, k string :: mhas(m, k) ==> 0 <= mindex(m, k) && mindex(m, k) < mcard(m) && mkeyAt(m, mindex(m, k)) == k
+//@ axiom enum_distinct: forall m MapStorage, i int, j int :: 0 <= i && i < j && j < mcard(m) ==> mkeyAt(m, i) != mkeyAt(m, j)
 //@ interface-contract MapStorage.Iter
 //@   option no-impl-check
 //@   iterates yield count mcard(self) args mkeyAt(self, cbidx), mget(self, mkeyAt(self, cbidx))
@@ -616,3 +617,20 @@ package value
 //@   ensures[false-means-different] result1 == nil && !result0 ==> mcard(v.m) != mcard(other.m) || (exists i in 0..mcard(v.m) :: !mhas(other.m, mkeyAt(v.m, i)) || (bfOK(equal, mget(other.m, mkeyAt(v.m, i)), mget(v.m, mkeyAt(v.m, i))) && !bfV(equal, mget(other.m, mkeyAt(v.m, i)), mget(v.m, mkeyAt(v.m, i)))))
 //@   callback "v.m.Iter(func" invariant eq && innerErr == nil && validStack(st) && mcard(v.m) == mcard(other.m) && (forall i in 0..cbidx :: entryEq(v, other, equal, mkeyAt(v.m, i)))
 //@   callback "v.m.Iter(func" stopped innerErr != nil || (!eq && validStack(st) && (exists i in 0..mcard(v.m) :: !mhas(other.m, mkeyAt(v.m, i)) || (bfOK(equal, mget(other.m, mkeyAt(v.m, i)), mget(v.m, mkeyAt(v.m, i))) && !bfV(equal, mget(other.m, mkeyAt(v.m, i)), mget(v.m, mkeyAt(v.m, i))))))
+
+// ---------------------------------------------------------------- C13: flattening a deep chain of replace views
+// ReplaceMap.Iter (a callback passed on to the original map's Iter: TRUSTED to follow the iteration protocol of
+// MapStorage.Iter for its own view) and createFlat, which copies the view entry by entry into a list map or a Go map:
+// the copy denotes the same abstract map.
+//@ func (m ReplaceMap) Iter
+//@   trusted
+//@   iterates yield count mcard(box(m)) args mkeyAt(box(m), cbidx), mget(box(m), mkeyAt(box(m), cbidx))
+//@   assigns nothing
+
+//@ func (m ReplaceMap) createFlat
+//@   property C13
+//@   safety C05
+//@   requires m.orig != nil && m.rep != nil
+//@   ensures[same-map] result != nil && mcard(result) == mcard(box(m)) && (forall k string :: mhas(result, k) == mhas(box(m), k) && (mhas(box(m), k) ==> mget(result, k) == mget(box(m), k)))
+//@   callback "rm[key] = v" invariant rm != nil && len(rm) == cbidx && (forall i in 0..cbidx :: haskey(rm, mkeyAt(box(m), i)) && rm[mkeyAt(box(m), i)] == mget(box(m), mkeyAt(box(m), i))) && (forall k string :: haskey(rm, k) ==> mindex(box(m), k) < cbidx && mhas(box(m), k))
+//@   callback "lm = lm.Append(key, v)" invariant len(lm) == cbidx && fresh(lm) && (forall i in 0..cbidx :: lm[i].key == mkeyAt(box(m), i) && lm[i].value == mget(box(m), mkeyAt(box(m), i)))
